@@ -106,6 +106,12 @@ def verify_function(qualname: str, self_class: Optional[str] = None, timeout_ms=
             src = ast.unparse(fnode)
         res.source_sha = hashlib.sha256(src.encode()).hexdigest()[:16]
         names, ptys = param_types(con, func, fnode, owner, ct)
+        try:
+            base_raw = resolve_qualname(qualname)[3]
+            bnode = fundef_of(unwrap_function(base_raw))
+            canon_names = [p.arg for p in bnode.args.posonlyargs + bnode.args.args + bnode.args.kwonlyargs]
+        except Exception:
+            canon_names = list(names)
         ex = Explorer()
         it = Interp(ex)
         it.fuv = func
@@ -145,9 +151,16 @@ def verify_function(qualname: str, self_class: Optional[str] = None, timeout_ms=
             cenv = dict(env)
             if is_ctor:
                 cenv.pop(names[0])
+            # contract clauses use the parameter names of the function the contract is declared on;
+            # an override may name its parameters differently (e.g. `_alias`): bind by position
+            for i, cn in enumerate(canon_names):
+                if i < len(names) and cn not in cenv and names[i] in env and not (is_ctor and i == 0):
+                    cenv[cn] = env[names[i]]
             for c in con.requires:
                 r = it.eval_clause(c.node, c.globs, it.clause_env(c, cenv))
                 ex.assume(it.bterm(it.truth_term(r)))
+            for c in con.hints:
+                it.eval_clause(c.node, c.globs, it.clause_env(c, cenv))    # instances of proved lemmas
             it.depth = 0
             fr = Frame(dict(env), func.__globals__, f'{func.__module__}.{func.__qualname__}')
             fr.assigned_names = assigned_names(fnode)
@@ -282,32 +295,4 @@ def end_raise(it: Interp, con: Contract, env, exc: Exc, name):
         it.obligation(f'{name}/raised-implies-{c.name}', 'raises', c.tag, it.truth_term(cond))
 
 
-def discharge(ob: Obligation, timeout_ms):
-    t0 = time.time()
-    goal = ob.goal
-    if isinstance(goal, bool):
-        goal = z3.BoolVal(goal)
-    for attempt, (tmo, opts) in enumerate([(min(timeout_ms, 3000), {}), (timeout_ms, {'smt.random_seed': 7})]):
-        s = z3.Solver()
-        s.set('timeout', tmo)
-        for k, v in opts.items():
-            s.set(k, v)
-        s.add(*ob.hyps)
-        s.add(z3.Not(goal))
-        r = s.check()
-        if r == z3.unsat:
-            ob.status = 'discharged'
-            ob.backend = 'z3'
-            break
-        if r == z3.sat:
-            ob.status = 'refuted'
-            ob.backend = 'z3'
-            try:
-                ob.model = s.model()
-            except z3.Z3Exception:
-                ob.model = None
-            break
-        ob.status = 'unknown'
-        ob.backend = 'z3'
-    ob.time = time.time() - t0
-    return ob
+from .solve import discharge, pointwise  # noqa: E402,F401
